@@ -455,6 +455,24 @@ impl Execute for ast::Pipeline {
     }
 }
 
+/// Returns whether the command at the given position of a pipeline runs directly in the
+/// current shell. That is the case if either of the following is true:
+///     * There's only one command in the pipeline.
+///     * This is the *last* command in the pipeline, the lastpipe option is enabled, and job
+///       monitoring is disabled.
+///
+/// Otherwise, a separate subshell is spawned for the command.
+fn runs_in_current_shell(
+    pipeline_len: usize,
+    index: usize,
+    shell: &Shell<impl extensions::ShellExtensions>,
+) -> bool {
+    pipeline_len == 1
+        || (index == pipeline_len - 1
+            && shell.options().run_last_pipeline_cmd_in_current_shell
+            && !shell.options().enable_job_control)
+}
+
 async fn spawn_pipeline_processes(
     pipeline: &ast::Pipeline,
     shell: &mut Shell<impl extensions::ShellExtensions>,
@@ -483,18 +501,8 @@ async fn spawn_pipeline_processes(
     }
 
     for (current_pipeline_index, command) in pipeline.seq.iter().enumerate() {
-        //
-        // We run a command directly in the current shell if either of the following is true:
-        //     * There's only one command in the pipeline.
-        //     * This is the *last* command in the pipeline, the lastpipe option is enabled, and job
-        //       monitoring is disabled.
-        // Otherwise, we spawn a separate subshell for each command in the pipeline.
-        //
-
-        let run_in_current_shell = pipeline_len == 1
-            || (current_pipeline_index == pipeline_len - 1
-                && shell.options().run_last_pipeline_cmd_in_current_shell
-                && !shell.options().enable_job_control);
+        let run_in_current_shell =
+            runs_in_current_shell(pipeline_len, current_pipeline_index, shell);
 
         // Set up parameters appropriate for this command.
         let mut cmd_params = params.clone();
@@ -557,6 +565,9 @@ async fn wait_for_pipeline_processes_and_update_status(
     // Clear our the pipeline status so we can start filling it out.
     shell.last_pipeline_statuses_mut().clear();
 
+    let pipeline_len = pipeline.seq.len();
+    let mut index = 0;
+
     while let Some(child) = process_spawn_results.pop_front() {
         let wait_result = if !stopped_children.is_empty() {
             child.poll().await?
@@ -564,9 +575,18 @@ async fn wait_for_pipeline_processes_and_update_status(
             child.wait().await?
         };
 
+        let ran_in_current_shell = runs_in_current_shell(pipeline_len, index, shell);
+        index += 1;
+
         match wait_result {
             ExecutionWaitResult::Completed(current_result) => {
-                result = current_result;
+                // A command that ran in its own subshell can only hand back a status: its
+                // requests to exit, return, break or continue ended with that subshell.
+                result = if ran_in_current_shell {
+                    current_result
+                } else {
+                    ExecutionResult::from(current_result.exit_code)
+                };
                 shell.set_last_exit_status(result.exit_code.into());
                 shell
                     .last_pipeline_statuses_mut()
